@@ -46,6 +46,9 @@ pub struct Obs {
     /// (lock index, write-held)
     pub held: Vec<(usize, bool)>,
     pub stuck: bool,
+    /// the handler asked for the probed lock again while holding it (observed as a stand-still behind
+    /// the harness's queued request; classified, see judge)
+    pub reentrant: bool,
 }
 
 struct Guard {
@@ -119,6 +122,25 @@ impl LockSet {
             _ => g!(self.wallet),
         }
     }
+    fn acquire(&self, l: usize, write: bool) -> Pin<Box<dyn Future<Output = Guard>>> {
+        macro_rules! a {
+            ($lock:expr) => {{
+                let lk = $lock.clone();
+                if write {
+                    Box::pin(async move { Guard { _g: Box::new(lk.write_owned().await) } }) as Pin<Box<dyn Future<Output = Guard>>>
+                } else {
+                    Box::pin(async move { Guard { _g: Box::new(lk.read_owned().await) } }) as Pin<Box<dyn Future<Output = Guard>>>
+                }
+            }};
+        }
+        match l {
+            0 => a!(self.cfg),
+            1 => a!(self.chain),
+            2 => a!(self.mempool),
+            3 => a!(self.peers),
+            _ => a!(self.wallet),
+        }
+    }
     fn state(&self, l: usize) -> (bool, bool) {
         macro_rules! s {
             ($lock:expr) => {{
@@ -144,46 +166,84 @@ fn poll_once<F: Future + ?Sized>(f: Pin<&mut F>) -> Poll<F::Output> {
 }
 
 /// Runs `fut` to completion while probing lock `l` (held by the harness in the given mode).
+///
+/// Every acquisition of `l` that has to wait is observed, not only the first: when the handler
+/// blocks, the harness records which other locks it holds, queues a fresh request of its own
+/// *behind* the handler's (tokio's lock is FIFO-fair), releases its guard, and lets the handler run.
+/// As soon as the handler gives `l` back the queued request owns it, so the handler's next
+/// acquisition blocks again and is observed with its held-set.
 fn probed<T>(locks: &LockSet, l: usize, write: bool, handler: &str, rec: &mut Vec<Obs>, fut: impl Future<Output = T>) -> Outcome<Option<T>> {
     catch(|| {
         block_on(async {
             let mut fut = Box::pin(tokio::task::unconstrained(fut));
-            let guard = locks.hold(l, write);
-            match poll_once(fut.as_mut()) {
-                Poll::Ready(v) => {
-                    drop(guard);
-                    Some(v)
-                }
-                Poll::Pending => {
-                    // the handler is waiting - for L if the harness holds it
-                    let mut held = vec![];
-                    for o in 0..5 {
-                        if o == l {
-                            continue;
-                        }
-                        let (any, wr) = locks.state(o);
-                        if any {
-                            held.push((o, wr));
-                        }
-                    }
-                    let probing = guard.is_some();
-                    drop(guard);
-                    let mut spins = 0;
-                    let r = loop {
-                        match poll_once(fut.as_mut()) {
-                            Poll::Ready(v) => break Some(v),
-                            Poll::Pending => {
-                                spins += 1;
-                                if spins > 200 {
-                                    break None;
+            let mut guard = locks.hold(l, write);
+            let probing = guard.is_some();
+            let mut again: Option<Pin<Box<dyn Future<Output = Guard>>>> = None;
+            let mut spins = 0;
+            let mut observations = 0;
+            loop {
+                match poll_once(fut.as_mut()) {
+                    Poll::Ready(v) => return Some(v),
+                    Poll::Pending => {
+                        if guard.is_some() {
+                            // the handler is waiting - for L, which the harness holds
+                            let mut held = vec![];
+                            for o in 0..5 {
+                                if o == l {
+                                    continue;
+                                }
+                                let (any, wr) = locks.state(o);
+                                if any {
+                                    held.push((o, wr));
                                 }
                             }
+                            if probing {
+                                rec.push(Obs { handler: handler.to_string(), acquiring: l, held, stuck: false, reentrant: false });
+                            }
+                            observations += 1;
+                            if observations < 64 {
+                                let mut a = locks.acquire(l, write);
+                                let _ = poll_once(a.as_mut()); // queued behind the handler's request
+                                again = Some(a);
+                            }
+                            guard = None;
+                            spins = 0;
+                        } else if let Some(a) = again.as_mut() {
+                            match poll_once(a.as_mut()) {
+                                Poll::Ready(g) => {
+                                    guard = Some(g);
+                                    again = None;
+                                    spins = 0;
+                                }
+                                Poll::Pending => {
+                                    spins += 1;
+                                    if spins > 50 {
+                                        // neither side can move: the handler holds L and asks for it again,
+                                        // its request sits behind the harness's queued one. Withdraw ours.
+                                        again = None;
+                                        spins = 0;
+                                        if let Poll::Ready(v) = poll_once(fut.as_mut()) {
+                                            if probing {
+                                                rec.push(Obs { handler: handler.to_string(), acquiring: l, held: vec![], stuck: false, reentrant: true });
+                                            }
+                                            return Some(v);
+                                        }
+                                        if probing {
+                                            rec.push(Obs { handler: handler.to_string(), acquiring: l, held: vec![], stuck: false, reentrant: true });
+                                        }
+                                    }
+                                }
+                            }
+                        } else {
+                            spins += 1;
+                            if spins > 200 {
+                                if probing {
+                                    rec.push(Obs { handler: handler.to_string(), acquiring: l, held: vec![], stuck: true, reentrant: false });
+                                }
+                                return None;
+                            }
                         }
-                    };
-                    if probing {
-                        rec.push(Obs { handler: handler.to_string(), acquiring: l, held, stuck: r.is_none() });
                     }
-                    r
                 }
             }
         })
@@ -497,6 +557,10 @@ fn eval(c: &mut Ctx, case: &Case, pre: &Built, counting: bool) -> Vec<(String, S
         for o in &all {
             if !o.held.is_empty() {
                 c.nontrivial(&(o.handler.clone(), o.acquiring, o.held.clone()));
+            }
+            if o.reentrant {
+                c.class(&format!("reentrant_{}_in_{}", LOCK_NAMES[o.acquiring], o.handler.split('(').next().unwrap_or("?")));
+                continue;
             }
             c.class(&format!("acquires_{}", LOCK_NAMES[o.acquiring]));
         }
